@@ -192,6 +192,11 @@ def run_gjk_nesterov_accelerated(
 
         simplex[simplex_len] = s0 - s1
         support_point = simplex[simplex_len]
+        # A vertex that is already part of the simplex cannot improve it.
+        duplicate = False
+        for j in range(simplex_len):
+            if (simplex[j] == support_point).all():
+                duplicate = True
         simplex_len += 1
 
         omega = ray_dir.dot(support_point) / np.linalg.norm(ray_dir)
@@ -210,7 +215,7 @@ def run_gjk_nesterov_accelerated(
         # Check convergence
         alpha = max(alpha, omega)
         diff = ray_len - alpha
-        cv_check_passed = (diff - tolerance * ray_len) <= 0
+        cv_check_passed = (diff - tolerance * ray_len) <= 0 or duplicate
 
         if i > 0 and cv_check_passed:
             simplex_len -= 1
